@@ -19,7 +19,9 @@ partial def go (h o : IO.FS.Stream) : IO Unit := do
   if line.isEmpty then return ()
   match line.trimAsciiEnd.toString.splitOn ";" with
   | [a, c] =>
-    o.putStrLn (match expandStylesheet (decode a) Gen.cssSnippets (cfgs.getD c.toNat! {}) with | .ok s => "ok " ++ hex s | .error e => showE e)
+    let show1 (tf : Bool) : String := match expandStylesheet (decode a) Gen.cssSnippets { cfgs.getD c.toNat! {} with tieFirst := tf } with | .ok s => "ok " ++ hex s | .error e => showE e
+    let r1 := show1 false; let r2 := show1 true
+    o.putStrLn (if r1 == r2 then r1 else r1 ++ " ~~ " ++ r2)
   | _ => o.putStrLn "BADLINE"
   go h o
 def main : IO Unit := do go (← IO.getStdin) (← IO.getStdout)
